@@ -271,6 +271,7 @@ func contentStoreTarget(addr ssa.Value, content map[*types.Var]string) (ssa.Valu
 // rootBase strips embedded-struct field selections: &x.CollapsedBn → x.
 func rootBase(v ssa.Value) ssa.Value {
 	for {
+		v = core.Unspill(v)
 		if u, ok := v.(*ssa.UnOp); ok && u.Op == token.MUL {
 			if fa, ok := u.X.(*ssa.FieldAddr); ok {
 				if f := core.FieldOfAddr(fa); f != nil && f.Embedded() {
